@@ -519,3 +519,24 @@ Proof.
   intros HC Hd H. apply chunkSegment_ok in H. destruct H as [_ ->].
   apply (chunk_loop_negative C newNr HC fs st 1 0 newTime); [lia|lia|assumption].
 Qed.
+
+(** *** The two variants of the caller (with / without the guard [chunkDur <= 0]) *)
+Lemma chunksOf_domain g fs st newTime newNr newDur C :
+  0 < C -> chunksOf g fs st newTime newNr newDur C = chunkSegment fs st newTime newNr newDur C.
+Proof. intros H. unfold chunksOf. destruct g; cbn [andb]; [destruct (C <=? 0) eqn:E; [lia|reflexivity]|reflexivity]. Qed.
+
+Lemma chunksOf_unguarded fs st newTime newNr newDur C :
+  chunksOf false fs st newTime newNr newDur C = chunkSegment fs st newTime newNr newDur C.
+Proof. reflexivity. Qed.
+
+(** With the guard no chunk duration below 2^32 ticks can make the handler panic. *)
+Lemma chunksOf_guarded_safe fs st newTime newNr newDur C :
+  C < two32 -> is_panic (chunksOf true fs st newTime newNr newDur C) = false.
+Proof.
+  intros H. unfold chunksOf. cbn [andb]. destruct (C <=? 0) eqn:E; [reflexivity|].
+  unfold chunkSegment, go_div. rewrite u32_small by lia. destruct (C =? 0) eqn:E0; [lia|]. reflexivity.
+Qed.
+
+Lemma chunksOf_guarded_refuses fs st newTime newNr newDur C :
+  C <= 0 -> exists e, chunksOf true fs st newTime newNr newDur C = Err e.
+Proof. intros H. unfold chunksOf. cbn [andb]. destruct (C <=? 0) eqn:E; [eexists; reflexivity|lia]. Qed.
